@@ -11,7 +11,7 @@
 (*         inequality (soundness rule S2, bin/ratcheck.py)                  *)
 (*   cov : which clauses were evaluated non-vacuously on this line          *)
 (***************************************************************************)
-EXTENDS Integers, Sequences, FiniteSets, TLC, Json, IOUtils, Rat, SluStore, SluFactor, SluSolve, SluEquil, SluCond
+EXTENDS Integers, Sequences, FiniteSets, TLC, Json, IOUtils, Rat, SluStore, SluFactor, SluSolve, SluEquil, SluCond, SluOrder
 
 Tr == ndJsonDeserialize(IOEnv.TRACE)
 \* MODE = "light": storage / allocator clauses only (the numeric replay of the factorization is skipped;
@@ -476,6 +476,141 @@ LaconVerdict(ev) ==
   IN [bad |-> bad, arb |-> (IF ok THEN {} ELSE {"C12.estimator_float"}), cov |-> (IF ok THEN {"C12.estimator_replayed"} ELSE {})]
 
 (***************************************************************************)
+(* Orderings and elimination tree (C10): get_perm_c + sp_preorder, getata,  *)
+(* at_plus_a.  sc.ordref = column order returned for this pattern by an     *)
+(* earlier call of the same scenario with the same method (other values).   *)
+(***************************************************************************)
+SeqToFn(s, n) == [i \in Cols(n) |-> s[i + 1]]
+IsPermSeq(s, n) == Len(s) = n /\ {s[i] : i \in 1..n} = Cols(n)
+OrderVerdict(ev, sc) ==
+  LET m == ev.m  n == ev.n
+      pat == PatternOf(ev.A0, FALSE)
+      dofact == ev.fact = 0
+      my == ev.method = 8
+      sym == ev.sym = 1
+      midok == IsPermSeq(ev.perm_c_mid, n)
+      finok == IsPermSeq(ev.perm_c, n)
+      given == SeqToFn(ev.perm_c_mid, n)
+      final == SeqToFn(ev.perm_c, n)
+      et == [j \in Cols(n) |-> ev.etree[j + 1]]
+      etok == \A j \in Cols(n) : ev.etree[j + 1] \in 0..n
+      bad == IF ~dofact THEN
+               \* ordering and tree are inputs: both untouched, the view lists A's columns under the given order
+               (IF ev.perm_c # ev.perm_c_in THEN {"C10.perm_c_changed_without_DOFACT"} ELSE {})
+               \cup (IF ev.etree # ev.etree_in THEN {"C10.etree_changed_without_DOFACT"} ELSE {})
+               \cup (IF finok /\ (\E i \in Cols(n) : ev.colbeg[final[i] + 1] # ev.colptr[i + 1] \/ ev.colend[final[i] + 1] # ev.colptr[i + 2]) THEN {"C10.permuted_view"} ELSE {})
+             ELSE
+               (IF ~midok THEN {"C10.ordering_not_a_bijection"} ELSE {})
+               \cup (IF ~finok THEN {"C10.perm_c_not_a_bijection"} ELSE {})
+               \cup (IF my /\ ev.perm_c_mid # ev.perm_c_in THEN {"C10.my_permc_overwritten"} ELSE {})
+               \cup (IF midok /\ finok /\ ~RespectsUpToPostorder(pat, m, n, given, final, sym) THEN {"C10.ordering_not_respected_up_to_postorder"} ELSE {})
+               \cup (IF finok /\ (~etok \/ et # ColEtreeDef(pat, m, n, final)) THEN {"C10.etree_is_not_the_column_etree"} ELSE {})
+               \cup (IF finok /\ etok /\ ~ParentAbove(et, n) THEN {"C10.parent_not_above_child"} ELSE {})
+               \cup (IF finok /\ etok /\ ~sym /\ ParentAbove(et, n) /\ ~Postordered(et, n) THEN {"C10.not_postordered"} ELSE {})
+               \cup (IF finok /\ (\E i \in Cols(n) : ev.colbeg[final[i] + 1] # ev.colptr[i + 1] \/ ev.colend[final[i] + 1] # ev.colptr[i + 2]) THEN {"C10.permuted_view"} ELSE {})
+               \cup (IF sc.ordref # <<>> /\ sc.ordref[1] = ev.method /\ sc.ordref[2] = ev.sym /\ sc.ordref[3] # ev.perm_c THEN {"C10.ordering_depends_on_values"} ELSE {})
+      bad2 == (IF ev.AC_shares_arrays # 1 \/ ev.AC_nnz # Len(ev.A0) \/ ev.AC_dims # <<m, n>> THEN {"C10.permuted_view_header"} ELSE {})
+  IN [bad |-> bad \cup bad2 \cup LedgerCls(ev, "_order"), arb |-> {},
+      cov |-> {"C10.order_method_" \o ToString(ev.method)} \cup (IF sc.ordref # <<>> /\ sc.ordref[1] = ev.method THEN {"C10.pattern_only_checked"} ELSE {})
+              \cup (IF sym THEN {"C10.symmetric_mode"} ELSE {}) \cup (IF ~dofact THEN {"C10.reuse_mode"} ELSE {}),
+      ord |-> <<ev.method, ev.sym, ev.perm_c>>]
+StructVerdict(ev) ==
+  LET m == ev.m  n == ev.n
+      pat == PatternOf(ev.A0, FALSE)
+      want == IF ev.fn = "ata" THEN StructATA(pat, m, n) ELSE StructAplusAT(pat, n)
+      shape == Has(ev, "b_colptr") /\ Len(ev.b_colptr) = n + 1 /\ ev.b_colptr[1] = 0 /\ ev.b_colptr[n + 1] = ev.bnz /\ Len(ev.b_rowind) = ev.bnz
+               /\ \A j \in 1..n : ev.b_colptr[j] <= ev.b_colptr[j + 1]
+      colset(j) == {ev.b_rowind[q + 1] : q \in ev.b_colptr[j + 1]..(ev.b_colptr[j + 2] - 1)}
+      bad == IF ev.fn = "aplusat" /\ m # n THEN {}
+             ELSE IF ~shape THEN {"C10.structure_arrays"}
+             ELSE (IF \E j \in Cols(n) : colset(j) # {i \in Cols(n) : <<i, j>> \in want} THEN {"C10.structure_differs_from_definition"} ELSE {})
+                  \cup (IF \E j \in Cols(n) : Cardinality(colset(j)) # ev.b_colptr[j + 2] - ev.b_colptr[j + 1] THEN {"C10.structure_duplicates"} ELSE {})
+  IN [bad |-> bad \cup LedgerCls(ev, "_struct"), arb |-> {}, cov |-> {"C10.structure_" \o ev.fn}]
+
+(***************************************************************************)
+(* Kernels (C14): sp_?trsv, sp_?gemv, sp_?gemm, ?gstrs against SluSolve on  *)
+(* the dense abstraction of the recorded factors / matrix.                   *)
+(***************************************************************************)
+UpFlag(f) == CASE f \in {"L", "l"} -> "L" [] f \in {"U", "u"} -> "U" [] f \in {"N", "n"} -> "N" [] f \in {"T", "t"} -> "T" [] f \in {"C", "c"} -> "C" [] OTHER -> "?"
+SmallTokK(t, cplx, k) == LET ok1(p) == TokOK(p) /\ LET v == Dy(p) IN Abs(v[1]) <= k /\ v[2] <= k IN IF cplx THEN ok1(t[1]) /\ ok1(t[2]) ELSE ok1(t)
+VecOf(seq, n, cplx) == [i \in Idx(n) |-> Val(seq[i + 1], cplx)]
+FactorsSmall(ev, cplx, k) == (\A q \in 1..Len(ev.L.nzval) : SmallTokK(ev.L.nzval[q], cplx, k)) /\ (\A q \in 1..Len(ev.U.nzval) : SmallTokK(ev.U.nzval[q], cplx, k))
+TrsvVerdict(ev) ==
+  LET n == ev.n  cplx == IsCplx(ev.ty)
+      up == UpFlag(ev.uplo)  tr == UpFlag(ev.trans)  dg == UpFlag(ev.diag)
+      documented == up \in {"L", "U"} /\ tr \in {"N", "T", "C"} /\ dg \in {"U", "N"}
+      wf == WellFormed(ev.L, ev.U, n, n, FALSE, LAMBDA t : TokIsZero(t, cplx)) = "ok"
+      DL == DenseL(ev.L, n, n, LAMBDA t : Val(t, cplx), CZero, COne)
+      DU == DenseU(ev.L, ev.U, n, LAMBDA t : Val(t, cplx), CZero)
+      unit == dg = "U"
+      exact == wf /\ FactorsSmall(ev, cplx, 16) /\ (\A i \in 1..n : SmallTokK(ev.x0[i], cplx, 16))
+               /\ ((up = "U" /\ ~unit) => \A k \in Idx(n) : CIsPow2(DU[<<k, k>>]))
+      want == Trsv(up, IF cplx THEN tr ELSE (IF tr = "C" THEN "T" ELSE tr), unit, DL, DU, VecOf(ev.x0, n, cplx), n)
+      got == \A i \in 1..n : ValOK(ev.x1[i], cplx)
+      bad == (IF documented /\ ev.info # 0 THEN {"C14.documented_flag_rejected"} ELSE {})
+             \cup (IF documented /\ ev.info = 0 /\ exact /\ (~got \/ VecOf(ev.x1, n, cplx) # want)
+                   THEN {IF up = "U" /\ unit THEN "C14.trsv_unit_upper_ignores_diag" ELSE "C14.trsv_result"} ELSE {})
+             \cup (IF ev.factors_same # 1 THEN {"C14.factors_modified"} ELSE {})
+             \cup (IF ev.outside_same # 1 THEN {"C14.wrote_outside_x"} ELSE {})
+             \cup (IF ~documented /\ ev.info = 0 THEN {"C14.undocumented_flag_accepted"} ELSE {})
+  IN [bad |-> bad \cup LedgerCls(ev, "_trsv"), arb |-> {}, cov |-> (IF documented /\ ev.info = 0 /\ exact THEN {"C14.trsv_exact_" \o up \o tr \o dg} ELSE {"C14.trsv_other"})]
+GemvVerdict(ev) ==
+  LET m == ev.m  n == ev.n  cplx == IsCplx(ev.ty)
+      tr == UpFlag(ev.trans)
+      documented == tr \in {"N", "T", "C"}
+      A == DenseOf(ev.A0, m, n, cplx, FALSE)
+      lenx == IF tr = "N" THEN n ELSE m
+      leny == IF tr = "N" THEN m ELSE n
+      betazero == TokIsZero(ev.beta, cplx)
+      exact == documented /\ (\A t \in 1..Len(ev.A0) : SmallTokK(ev.A0[t][3], cplx, 64)) /\ Len(ev.x) = lenx /\ Len(ev.y0) = leny
+               /\ (\A i \in 1..lenx : SmallTokK(ev.x[i], cplx, 64)) /\ (betazero \/ \A i \in 1..leny : SmallTokK(ev.y0[i], cplx, 64))
+               /\ SmallTokK(ev.alpha, cplx, 4) /\ SmallTokK(ev.beta, cplx, 4)
+      y0 == [i \in Idx(leny) |-> IF betazero THEN CZero ELSE Val(ev.y0[i + 1], cplx)]
+      want == Gemv(IF cplx THEN tr ELSE (IF tr = "C" THEN "T" ELSE tr), Val(ev.alpha, cplx), A, m, n, VecOf(ev.x, lenx, cplx), Val(ev.beta, cplx), y0)
+      got == Len(ev.y1) = leny /\ \A i \in 1..leny : ValOK(ev.y1[i], cplx)
+      bad == (IF exact /\ (~got \/ VecOf(ev.y1, leny, cplx) # want) THEN {"C14.gemv_result"} ELSE {})
+             \cup (IF ev.A_same # 1 \/ ev.x_same # 1 THEN {"C14.input_modified"} ELSE {})
+             \cup (IF ev.outside_same # 1 THEN {"C14.wrote_outside_y"} ELSE {})
+  IN [bad |-> bad \cup LedgerCls(ev, "_gemv"), arb |-> {}, cov |-> (IF exact THEN {"C14.gemv_exact_" \o tr} ELSE {"C14.gemv_other"})]
+GemmVerdict(ev) ==
+  LET m == ev.m  n == ev.n  cplx == IsCplx(ev.ty)
+      tr == UpFlag(ev.trans)
+      A == DenseOf(ev.A0, m, n, cplx, FALSE)
+      rowsB == IF tr = "N" THEN n ELSE m
+      rowsC == IF tr = "N" THEN m ELSE n
+      betazero == TokIsZero(ev.beta, cplx)
+      exact == tr \in {"N", "T", "C"} /\ (\A t \in 1..Len(ev.A0) : SmallTokK(ev.A0[t][3], cplx, 64))
+               /\ (\A i \in 1..Len(ev.B) : SmallTokK(ev.B[i], cplx, 64)) /\ (\A i \in 1..Len(ev.C0) : betazero \/ SmallTokK(ev.C0[i], cplx, 64))
+               /\ SmallTokK(ev.alpha, cplx, 4) /\ SmallTokK(ev.beta, cplx, 4)
+               /\ Len(ev.B) >= (ev.nb - 1) * ev.ldb + rowsB /\ Len(ev.C0) >= (ev.nb - 1) * ev.ldc + rowsC
+      colB(k) == [i \in Idx(rowsB) |-> Val(ev.B[(k - 1) * ev.ldb + i + 1], cplx)]
+      colC0(k) == [i \in Idx(rowsC) |-> IF betazero THEN CZero ELSE Val(ev.C0[(k - 1) * ev.ldc + i + 1], cplx)]
+      want(k) == Gemv(IF cplx THEN tr ELSE (IF tr = "C" THEN "T" ELSE tr), Val(ev.alpha, cplx), A, m, n, colB(k), Val(ev.beta, cplx), colC0(k))
+      colOK(k) == \A i \in Idx(rowsC) : ValOK(ev.C1[(k - 1) * ev.ldc + i + 1], cplx) /\ Val(ev.C1[(k - 1) * ev.ldc + i + 1], cplx) = want(k)[i]
+      padOK == \A k \in 1..ev.nb : \A i \in rowsC..(ev.ldc - 1) : ((k - 1) * ev.ldc + i + 1 <= Len(ev.C1)) => ev.C1[(k - 1) * ev.ldc + i + 1] = ev.C0[(k - 1) * ev.ldc + i + 1]
+      bad == (IF exact /\ (\E k \in 1..ev.nb : ~colOK(k)) THEN {"C14.gemm_result"} ELSE {})
+             \cup (IF exact /\ ~padOK THEN {"C14.gemm_wrote_padding"} ELSE {})
+             \cup (IF ev.B_same # 1 THEN {"C14.input_modified"} ELSE {})
+  IN [bad |-> bad \cup LedgerCls(ev, "_gemm"), arb |-> {}, cov |-> (IF exact THEN {"C14.gemm_exact_" \o tr} ELSE {"C14.gemm_other"})]
+GstrsVerdict(ev) ==
+  LET n == ev.n  cplx == IsCplx(ev.ty)
+      tr == CASE ev.trans = 0 -> "N" [] ev.trans = 1 -> "T" [] OTHER -> (IF cplx THEN "C" ELSE "T")
+      wf == Has(ev, "L") /\ WellFormed(ev.L, ev.U, n, n, FALSE, LAMBDA t : TokIsZero(t, cplx)) = "ok"
+      DL == DenseL(ev.L, n, n, LAMBDA t : Val(t, cplx), CZero, COne)
+      DU == DenseU(ev.L, ev.U, n, LAMBDA t : Val(t, cplx), CZero)
+      permsok == IsPerm(ev.perm_c, n) /\ IsPerm(ev.perm_r, n)
+      exact == wf /\ permsok /\ ev.info = 0 /\ FactorsSmall(ev, cplx, 16) /\ (\A k \in Idx(n) : CIsPow2(DU[<<k, k>>]))
+               /\ \A k \in 1..ev.nrhs : \A i \in 1..n : SmallTokK(ev.B0[k][i], cplx, 16)
+      pr == [i \in Idx(n) |-> ev.perm_r[i + 1]]
+      pc == [i \in Idx(n) |-> ev.perm_c[i + 1]]
+      want(k) == Gstrs(tr, DL, DU, pr, pc, VecOf(ev.B0[k], n, cplx), n)
+      colOK(k) == (\A i \in 1..n : ValOK(ev.B1[k][i], cplx)) /\ VecOf(ev.B1[k], n, cplx) = want(k)
+      bad == (IF exact /\ (\E k \in 1..ev.nrhs : ~colOK(k)) THEN {"C14.gstrs_result"} ELSE {})
+             \cup (IF ev.padB_same # 1 THEN {"C14.gstrs_wrote_padding"} ELSE {})
+             \cup (IF ev.same.Lval # 1 \/ ev.same.Uval # 1 \/ ev.same.Lstr # 1 \/ ev.same.Ustr # 1 THEN {"C14.factors_modified"} ELSE {})
+  IN [bad |-> bad \cup LedgerCls(ev, "_gstrs"), arb |-> {}, cov |-> (IF exact THEN {"C14.gstrs_exact_" \o tr \o "_nrhs" \o ToString(ev.nrhs)} ELSE {"C14.gstrs_other"})]
+
+(***************************************************************************)
 (* Rejected calls (C18): the routine reports the position SluScreen!Screen  *)
 (* computes from the violated preconditions, every caller object is byte-   *)
 (* identical and no allocation is retained.                                 *)
@@ -500,6 +635,12 @@ Verdict(ev, pm, sc) ==
         [] ev.fn = "screen" -> ScreenVerdict(ev)
         [] ev.fn = "equ" -> EquVerdict(ev)
         [] ev.fn = "lacon" -> LaconVerdict(ev)
+        [] ev.fn = "order" -> OrderVerdict(ev, sc)
+        [] ev.fn = "trsv" -> TrsvVerdict(ev)
+        [] ev.fn = "gemv" -> GemvVerdict(ev)
+        [] ev.fn = "gemm" -> GemmVerdict(ev)
+        [] ev.fn = "gstrs" -> GstrsVerdict(ev)
+        [] ev.fn \in {"ata", "aplusat"} -> StructVerdict(ev)
         [] OTHER -> [bad |-> (IF Has(ev, "ledger") THEN LedgerCls(ev, "_" \o ev.fn) ELSE {}), arb |-> {}, cov |-> {"ledger_only_" \o ev.fn}])
   ELSE IF ev.e = "Done" THEN
      [bad |-> (IF ev.status # "ok" THEN {"C19.abnormal_end_" \o ev.status} ELSE {}), arb |-> {}, cov |-> {}]
@@ -514,7 +655,7 @@ Verdict(ev, pm, sc) ==
 
 VARIABLES l, pm, sc
 vars == <<l, pm, sc>>
-NoCtx == [rf |-> [j |-> -1, count |-> 0, want |-> FALSE], ref |-> <<>>, refd2 |-> FALSE, leaked |-> FALSE, memfail |-> FALSE, ty |-> "d", liw |-> 4, id |-> "", nexp |-> 0, memev |-> FALSE]
+NoCtx == [ordref |-> <<>>, rf |-> [j |-> -1, count |-> 0, want |-> FALSE], ref |-> <<>>, refd2 |-> FALSE, leaked |-> FALSE, memfail |-> FALSE, ty |-> "d", liw |-> 4, id |-> "", nexp |-> 0, memev |-> FALSE]
 TInit == l = 1 /\ pm = <<>> /\ sc = NoCtx
 TNext == /\ l <= Len(Tr)
          /\ LET ev == Tr[l]  v == Verdict(ev, pm, sc) IN
@@ -528,7 +669,7 @@ TNext == /\ l <= Len(Tr)
                                      !.nexp = IF ev.e = "Expand" /\ ev.ok = 1 /\ pm # <<>> /\ pm.e = "ExpandBegin" /\ pm.numexp > 0 THEN sc.nexp + 1 ELSE sc.nexp]
                      ELSE IF IsRefineEvent(ev) THEN [sc EXCEPT !.rf = RefineNext(sc.rf, ev)]
                      ELSE IF ev.e = "Ret" THEN
-                          [sc EXCEPT !.rf = NoCtx.rf, !.leaked = sc.leaked \/ (Has(ev, "ledger") /\ ev.ledger.live_internal # 0), !.memfail = FALSE, !.liw = (IF Has(ev, "itsz") THEN ev.itsz ELSE sc.liw), !.nexp = 0, !.memev = FALSE,
+                          [sc EXCEPT !.ordref = (IF Has(v, "ord") THEN v.ord ELSE sc.ordref), !.rf = NoCtx.rf, !.leaked = sc.leaked \/ (Has(ev, "ledger") /\ ev.ledger.live_internal # 0), !.memfail = FALSE, !.liw = (IF Has(ev, "itsz") THEN ev.itsz ELSE sc.liw), !.nexp = 0, !.memev = FALSE,
                                      !.ref = IF sc.ref = <<>> /\ Has(v, "digs") THEN v.digs ELSE sc.ref,
                                      !.refd2 = IF sc.ref = <<>> /\ Has(v, "digs") THEN v.d2 ELSE sc.refd2]
                      ELSE sc
